@@ -574,7 +574,7 @@ func (d *driver) record(ir inputResult) {
 			d.res.Caps = appendUniq(d.res.Caps, "stage "+r.St+" is exercised only on the first 5 cycle-visible/very deep trees of every child process (it descends to maxWalkDepth=10000, bounded but ~1 s each)")
 			continue
 		}
-		if r.Tag != "" && (r.V == vOK || r.V == vErr || r.V == vPanic) {
+		if r.Tag != "" && (r.V == vOK || r.V == vErr || r.V == vPanic || r.V == vWrong) {
 			ts := d.tagStat(r.St + "|" + r.Tag)
 			ts.survived++
 			if len(ts.deaths) > 0 || deathsOf(claimsDir(), r.St+"|"+r.Tag) > 0 {
@@ -582,7 +582,7 @@ func (d *driver) record(ir inputResult) {
 				d.res.Broken = fmt.Sprintf("reference model mispredicted: input #%d of part %s tagged %q survived stage %s although tagged inputs died there before", ir.idx, d.fam.name, r.Tag, r.St)
 			}
 		}
-		if r.V == vPanic || r.V == vFatal || r.V == vHang {
+		if r.V == vPanic || r.V == vFatal || r.V == vHang || r.V == vWrong {
 			crashed = true
 			k += " " + r.Key
 			if r.NoRepo {
@@ -980,7 +980,7 @@ func partOf(fam family, tier string) runner.Part {
 					fmt.Fprintf(&out, "input #%d: %s\n", ir.idx, ir.desc)
 					for _, s := range ir.res {
 						fmt.Fprintf(&out, "  %-34s %s %s%s\n", s.St, s.V, s.Err, s.Key)
-						if s.V == vPanic {
+						if s.V == vPanic || s.V == vWrong {
 							bad = append(bad, s.Key)
 							fmt.Fprintf(&out, "    %s\n    %s\n", s.Msg, strings.ReplaceAll(s.Top, "\n", "\n    "))
 						}
@@ -1030,7 +1030,7 @@ func main() {
 		Level: "exploration",
 		Rule: "every input of the stated finite families — (i) footers: every blob length 0..120 x 3 fillers, every prefix/suffix of the 4 footer kinds, every single-byte mutation x value menu of each footer, every XLEN x subfield-LEN x SI inconsistency, every footer numeric field from a menu; " +
 			"(ii) TOC JSON: all TOCs with <=2 entries over 7 names x 7 types x linkName x (3 containers), all 3-entry TOCs over the 3 path-clean classes (thorough: full alphabet, 4 entries pruned), numeric fields {-1,0,1,2^62,2^63-1} one or two at a time on 3 base structures, all digest combinations, a menu of malformed documents; " +
-			"(iii) every single-byte mutation x value menu and every truncation of a valid gzip / zstd:chunked / external-TOC blob; (iv) registry reply scripts from a grammar of status / Content-Range / Content-Length / Content-Type / multipart layouts / every truncation of a multipart body; (v) all tars with <=3 entries incl. hardlink cycles/self links/links to dirs x prioritized lists, truncated and mutated tar/gzip/zstd inputs — " +
+			"(iii) every single-byte mutation x value menu and every truncation of a valid gzip / zstd:chunked / external-TOC blob; (iv) registry reply scripts from a grammar of status / Content-Range / Content-Length / Content-Type / multipart layouts / every truncation of a multipart body; (v) all tars with <=3 entries incl. hardlink cycles/self links/links to dirs x prioritized lists, truncated and mutated tar/gzip/zstd inputs; (vi) FUSE passthrough on pristine blobs: files of 1..2cs+3 bytes for chunk size cs in {3,8} (and a 2-file blob) x mergeBufferSize 1..2cs+2 x mergeWorkerCount 1..3 through GetPassthroughFd with a directory cache, also comparing the bytes behind the fd — " +
 			"pushed through every applicable stage (ParseFooter/ParseTOC/DecompressTOC of each decompressor, estargz.Open+walk+VerifyTOC, memory and db metadata readers+walk, fs/reader Cache/read/verified read/passthrough, Unpack, remote Resolve/ReadAt/Cache/Check/Refresh, Build/AppendTar). evaluations = (input, stage) executions; non-trivial = distinct inputs that got past the format gate (a reader/blob/builder object was obtained) or crashed",
 		Assumptions: []string{
 			"child processes run with RLIMIT_AS 4 GiB; batches use debug.SetMaxStack(16 MiB) and every process death is re-run alone in a fresh process with SetMaxStack(64 MiB) before it is believed (a stack overflow that completes with 64 MiB is recorded as deep-but-finite recursion, not as a finding)",
@@ -1041,7 +1041,7 @@ func main() {
 		},
 		QuickBudget: 225 * time.Second, ThoroughBudget: 28 * time.Minute,
 		Parts: func(tier string) []runner.Part {
-			order := []string{"footer-len", "toc-struct", "toc-num", "build", "toc-misc", "footer-xlen", "footer-num", "footer-mut", "mut-gz", "mut-zstd", "mut-ext", "http"}
+			order := []string{"footer-len", "toc-struct", "toc-num", "build", "toc-misc", "footer-xlen", "footer-num", "footer-mut", "mut-gz", "mut-zstd", "mut-ext", "http", "passthrough-merge"}
 			byName := map[string]family{}
 			for _, f := range families() {
 				byName[f.name] = f
